@@ -741,6 +741,7 @@ func (r *resultBuilder) parseMsg(msg []byte, isUDP bool) (dnsmessage.Header, err
 	}
 
 	// Parse answers and add to result.
+	var hasAnswer bool
 	for {
 		answerHeader, err := parser.AnswerHeader()
 		if err != nil {
@@ -749,6 +750,7 @@ func (r *resultBuilder) parseMsg(msg []byte, isUDP bool) (dnsmessage.Header, err
 			}
 			return dnsmessage.Header{}, fmt.Errorf("failed to parse answer header: %w", err)
 		}
+		hasAnswer = true
 
 		// Set minimum TTL.
 		ttl := now.Add(time.Duration(answerHeader.TTL) * time.Second)
@@ -779,7 +781,7 @@ func (r *resultBuilder) parseMsg(msg []byte, isUDP bool) (dnsmessage.Header, err
 		}
 	}
 
-	if r.expiresAt.IsZero() {
+	if !hasAnswer && (header.RCode == dnsmessage.RCodeSuccess || header.RCode == dnsmessage.RCodeNameError) {
 		// RFC 2308 negative caching: Parse authorities and use SOA record's TTL.
 		for {
 			authorityHeader, err := parser.AuthorityHeader()
@@ -791,7 +793,10 @@ func (r *resultBuilder) parseMsg(msg []byte, isUDP bool) (dnsmessage.Header, err
 			}
 
 			if authorityHeader.Type == dnsmessage.TypeSOA {
-				r.expiresAt = now.Add(time.Duration(authorityHeader.TTL) * time.Second)
+				ttl := now.Add(time.Duration(authorityHeader.TTL) * time.Second)
+				if r.expiresAt.IsZero() || r.expiresAt.After(ttl) {
+					r.expiresAt = ttl
+				}
 			}
 
 			if err := parser.SkipAuthority(); err != nil {
